@@ -234,6 +234,14 @@ SAMPLES = {
     're': ['a', 'ab', 'abab', 'b', 'aab', '12', 'é', 'x', '', 'éé', '-1', 'a)b', '//', 'a/b', '01'],
     'rex': ['a', 'b', 'ab', '12', 'abx', 'x', 'q'],
 }
+RE_SAMPLES = {
+    r'[a-z]+': ['a', 'ab', 'abab'], r'\d+': ['12', '0', '007'], r'[^/]+': ['a', 'x1', 'é', 'a-b'], r'a*': ['', 'a', 'aa'],
+    r'a|ab': ['a', 'ab'], r'(?:ab)+': ['ab', 'abab'], r'.*': ['', 'a/b', 'x'], r'.+': ['a', 'a/b'], r'[ab]*b': ['b', 'ab', 'abb'],
+    r'\w+': ['a1', 'é', 'x_'], r'é+': ['é', 'éé'], r'[0-9][0-9]': ['12', '01'], r'x?': ['x', ''], r'[^-]*': ['a', '', 'a/b'],
+    r'-?1': ['1', '-1'], r'/+': ['/', '//'], r'a\)b': ['a)b'], r'[^/]*/b': ['a/b', '/b'],
+    r'(a)|(b)': ['a', 'b'], r'(\d+)|([a-z]+)': ['12', 'ab'], r'(a)|b': ['a', 'b'], r'(ab?)(x)?': ['a', 'ab', 'abx'],
+    r'(a)|(ab)|(.)': ['a', 'ab', 'q'],
+}
 PATH_ALPHA = ['a', 'b', '/', '-', '0', '1', 'é', '\r', '\n', '.', 'x', '2']
 
 
@@ -243,9 +251,10 @@ def path_for(rng, ast):
         if s[0] == 'lit':
             out.append(s[1])
         else:
-            out.append(rng.choice(SAMPLES[s[2]]))
-            if s[4] is not None and rng.random() < .3:
-                out.append(s[4])
+            if s[2] in ('re', 'rex') and s[3] in RE_SAMPLES and rng.random() < .8:
+                out.append(rng.choice(RE_SAMPLES[s[3]]))
+            else:
+                out.append(rng.choice(SAMPLES[s[2]]))
     return ''.join(out)
 
 
